@@ -25,6 +25,7 @@ type C06Case struct {
 	MainWrap int   `json:"mainwrap"` // how the unsandboxed template holds the include
 	IncOpts  int   `json:"incopts"`  // options on the sandboxed include itself: bit0 with, bit1 only
 	Custom   bool  `json:"custom"`   // harness policy type instead of DefaultSecurityPolicy
+	Deny     bool  `json:"deny,omitempty"` // the refused names are listed in the policy with the value false instead of being absent
 	// second arm (checkC06Named): an explicit occurrence and the names the policy refuses,
 	// "f:<name>" for a function, "|<name>" for a filter; built-in names included
 	Occ    string   `json:"occ,omitempty"`
@@ -229,6 +230,9 @@ func c06Policy(c C06Case, allowSpy bool) twig.SecurityPolicy {
 	if allowSpy {
 		p.AllowedFilters["forbid"] = true
 		p.AllowedFunctions["forbid_fn"] = true
+	} else if c.Deny {
+		p.AllowedFilters["forbid"] = false
+		p.AllowedFunctions["forbid_fn"] = false
 	}
 	if c.Custom {
 		return customPolicy{p.AllowedFilters, p.AllowedFunctions}
@@ -366,8 +370,14 @@ func c06NamedPolicy(c C06Case, allowAllNames bool) twig.SecurityPolicy {
 		for _, r := range c.Refuse {
 			if strings.HasPrefix(r, "f:") {
 				delete(p.AllowedFunctions, r[2:])
+				if c.Deny {
+					p.AllowedFunctions[r[2:]] = false
+				}
 			} else {
 				delete(p.AllowedFilters, r[1:])
+				if c.Deny {
+					p.AllowedFilters[r[1:]] = false
+				}
 			}
 		}
 	}
@@ -487,6 +497,8 @@ func TestC06Named(t *testing.T) {
 			run(c, nil)
 			c.IncOpts = 3
 			run(c, nil)
+			c.Deny = true
+			run(c, nil)
 		}
 		for k := range c06CarrierNames {
 			c := o
@@ -499,6 +511,7 @@ func TestC06Named(t *testing.T) {
 		c.MainWrap = rapid.IntRange(0, 4).Draw(rt, "mainwrap")
 		c.IncOpts = rapid.IntRange(0, 3).Draw(rt, "incopts")
 		c.Custom = rapid.IntRange(0, 3).Draw(rt, "custom") == 0
+		c.Deny = rapid.IntRange(0, 2).Draw(rt, "deny") == 0
 		n := rapid.IntRange(1, scale(3, 4)).Draw(rt, "ncarriers")
 		for i := 0; i < n; i++ {
 			c.Carriers = append(c.Carriers, rapid.IntRange(0, len(c06CarrierNames)-1).Draw(rt, "carrier"))
@@ -540,6 +553,9 @@ func checkC06Flip(c C06Case) (bool, error) {
 		} else {
 			delete(filters, "forbid")
 			delete(functions, "forbid_fn")
+			if c.Deny {
+				filters["forbid"], functions["forbid_fn"] = false, false
+			}
 		}
 	}
 	seq := []bool{true, false, true, false}
@@ -598,6 +614,7 @@ func TestC06Flip(t *testing.T) {
 			for _, opts := range []int{0, 4} {
 				for _, custom := range []bool{false, true} {
 					run(C06Case{Pos: pos, Fn: fn, IncOpts: opts, Custom: custom}, nil)
+					run(C06Case{Pos: pos, Fn: fn, IncOpts: opts, Custom: custom, Deny: true}, nil)
 				}
 				for k := range c06CarrierNames {
 					run(C06Case{Pos: pos, Fn: fn, IncOpts: opts, Carriers: []int{k}}, nil)
@@ -606,7 +623,7 @@ func TestC06Flip(t *testing.T) {
 		}
 	}
 	rapid.Check(t, func(rt *rapid.T) {
-		c := C06Case{Fn: rapid.Bool().Draw(rt, "fn"), MainWrap: rapid.IntRange(0, 4).Draw(rt, "mainwrap"), IncOpts: rapid.IntRange(0, 7).Draw(rt, "incopts"), Custom: rapid.Bool().Draw(rt, "custom")}
+		c := C06Case{Fn: rapid.Bool().Draw(rt, "fn"), MainWrap: rapid.IntRange(0, 4).Draw(rt, "mainwrap"), IncOpts: rapid.IntRange(0, 7).Draw(rt, "incopts"), Custom: rapid.Bool().Draw(rt, "custom"), Deny: rapid.IntRange(0, 2).Draw(rt, "deny") == 0}
 		if c.Fn {
 			c.Pos = rapid.IntRange(0, len(c06FuncPos)-1).Draw(rt, "pos")
 		} else {
@@ -620,13 +637,13 @@ func TestC06Flip(t *testing.T) {
 	})
 }
 
-const c06Rule = "a forbidden spy filter or function written in one of 26 (filter) / 21 (function) syntactic positions, reached from `include 'inner' sandboxed` (optionally with/only, placed at top level, in a loop, condition, block or macro of the unsandboxed template) through a chain of 0-3 carriers out of 16 (top-level code of an imported library (import as / from import), include, include only, include with, extends with override, extends with the occurrence in the parent, parent(), import-as + call, from-import + call, local macro, apply, for, if, block, set) under DefaultSecurityPolicy or a harness policy type; non-trivial = the occurrence is live (the spy runs when the include is not sandboxed) and it is not the head of a print tag directly in the sandboxed template; distinct by case parameters"
+const c06Rule = "a forbidden spy filter or function written in one of 26 (filter) / 21 (function) syntactic positions, reached from `include 'inner' sandboxed` (optionally with/only, placed at top level, in a loop, condition, block or macro of the unsandboxed template) through a chain of 0-3 carriers out of 16 (top-level code of an imported library (import as / from import), include, include only, include with, extends with override, extends with the occurrence in the parent, parent(), import-as + call, from-import + call, local macro, apply, for, if, block, set) under DefaultSecurityPolicy or a harness policy type, the refused name absent from the policy's maps or (1 case in 3) listed there with the value false; non-trivial = the occurrence is live (the spy runs when the include is not sandboxed) and it is not the head of a print tag directly in the sandboxed template; distinct by case parameters"
 
 func TestC06Sandbox(t *testing.T) {
 	r := NewRec(t, "C06", c06Rule)
 	defer r.Flush()
 	rapid.Check(t, func(rt *rapid.T) {
-		c := C06Case{Fn: rapid.Bool().Draw(rt, "fn"), MainWrap: rapid.IntRange(0, 4).Draw(rt, "mainwrap"), IncOpts: rapid.IntRange(0, 3).Draw(rt, "incopts"), Custom: rapid.IntRange(0, 3).Draw(rt, "custom") == 0}
+		c := C06Case{Fn: rapid.Bool().Draw(rt, "fn"), MainWrap: rapid.IntRange(0, 4).Draw(rt, "mainwrap"), IncOpts: rapid.IntRange(0, 3).Draw(rt, "incopts"), Custom: rapid.IntRange(0, 3).Draw(rt, "custom") == 0, Deny: rapid.IntRange(0, 2).Draw(rt, "deny") == 0}
 		if c.Fn {
 			c.Pos = rapid.IntRange(0, len(c06FuncPos)-1).Draw(rt, "pos")
 		} else {
@@ -696,6 +713,8 @@ func TestC06Matrix(t *testing.T) {
 		for pos := 0; pos < npos; pos++ {
 			for _, opts := range []int{0, 3} {
 				run(C06Case{Pos: pos, Fn: fn, IncOpts: opts})
+				run(C06Case{Pos: pos, Fn: fn, IncOpts: opts, Deny: true})
+				run(C06Case{Pos: pos, Fn: fn, IncOpts: opts, Deny: true, Custom: true})
 				for k := range c06CarrierNames {
 					run(C06Case{Pos: pos, Fn: fn, IncOpts: opts, Carriers: []int{k}})
 				}
